@@ -7,6 +7,8 @@ import (
 	"fmt"
 	"strings"
 	"testing"
+
+	"golang.org/x/net/html"
 )
 
 func govcTok(prefix string, n int) []string {
@@ -92,44 +94,156 @@ func minInt(a, b int) int {
 	return b
 }
 
-func TestGovcExcerptReplay(t *testing.T) {
-	paras := govcMakeParas()
-	var body strings.Builder
-	var srcWords []string
-	body.WriteString("<html><head><title>Replay page</title></head><body><article>")
-	for i, p := range paras {
-		body.WriteString(p.html + "\n")
-		srcWords = append(srcWords, p.words...)
-		if i == 2 {
-			tw := govcTok("tb", 8)
-			body.WriteString("<table><caption>" + tw[0] + "</caption><tr><th>" + tw[1] + "</th><th>" + tw[2] + "</th></tr><tr><td>" + tw[3] + "</td><td>" + tw[4] + "</td></tr><tr><td>" + tw[5] + "</td><td>" + tw[6] + " <span style=\"display:none\">hid000</span></td></tr></table>\n")
-			srcWords = append(srcWords, tw[:7]...)
+// ---- C02: bounded excerpt check over generated article shapes ----
+
+type govcBlock struct {
+	name    string
+	visible []string // unique tokens of the visible text, in document order
+	html    string
+}
+
+// govcBlocks builds one instance of every block kind with tokens prefixed by `pfx`.
+func govcBlocks(pfx string) []govcBlock {
+	n := 0
+	tok := func(k int) []string {
+		var r []string
+		for i := 0; i < k; i++ {
+			r = append(r, fmt.Sprintf("%s%03d", pfx, n))
+			n++
 		}
+		return r
 	}
-	body.WriteString("</article></body></html>")
-	res, err := ApplyForReader(strings.NewReader(body.String()), nil)
-	if err != nil {
-		t.Fatal(err)
-	}
-	pos := map[string]int{}
-	for i, w := range srcWords {
-		pos[w] = i
-	}
+	j := func(w []string) string { return strings.Join(w, " ") }
+	var bs []govcBlock
+	add := func(name string, vis []string, html string) { bs = append(bs, govcBlock{name, vis, html}) }
+	w := tok(40)
+	add("para", w, "<p>"+j(w)+"</p>")
+	w = tok(40)
+	add("para-inline", w, "<p>"+j(w[:10])+" <b>"+j(w[10:15])+" <i>"+j(w[15:20])+"</i></b> <a href=\"/x\">"+j(w[20:25])+"</a> <font color=red>"+j(w[25:30])+"</font> "+j(w[30:])+"</p>")
+	w = tok(40)
+	add("para-js-anchor", w, "<p>"+j(w[:20])+" <a href=\"javascript:void(0)\">"+w[20]+"</a> "+j(w[21:])+"</p>")
+	w = tok(40)
+	add("para-br", w, "<p>"+j(w[:20])+"<br><br>"+j(w[20:])+"</p>")
+	w = tok(41)
+	add("para-hidden-span", w[:40], "<p>"+j(w[:20])+" <span style=\"display:none\">"+w[40]+"</span> "+j(w[20:40])+"</p>")
+	w = tok(45)
+	add("ul", w, "<ul><li>"+j(w[:15])+"</li><li>"+j(w[15:30])+"</li><li>"+j(w[30:])+"</li></ul>")
+	w = tok(60)
+	add("ul-nested", w, "<ul><li>"+j(w[:15])+"<ol><li>"+j(w[15:30])+"</li><li>"+j(w[30:45])+"</li></ol></li><li>"+j(w[45:])+"</li></ul>")
+	w = tok(40)
+	add("blockquote", w, "<blockquote><p>"+j(w[:20])+"</p><p>"+j(w[20:])+"</p></blockquote>")
+	w = tok(30)
+	add("pre", w, "<pre>"+j(w[:15])+"\n"+j(w[15:])+"</pre>")
+	w = tok(9)
+	add("data-table", w, "<table><caption>"+w[0]+"</caption><thead><tr><th>"+w[1]+"</th><th>"+w[2]+"</th></tr></thead><tbody><tr><td>"+w[3]+"</td><td>"+w[4]+" <b>"+w[5]+"</b></td></tr><tr><td>"+w[6]+"</td><td>"+w[7]+"<br>"+w[8]+"</td></tr></tbody></table>")
+	w = tok(40)
+	add("layout-table", w, "<table><tr><td><p>"+j(w[:20])+"</p></td><td><p>"+j(w[20:])+"</p></td></tr></table>")
+	w = tok(6)
+	add("figure", w, "<figure><img src=\"/img/"+pfx+".png\" width=600 height=400><figcaption>"+j(w[:3])+" <a href=\"/c\">"+j(w[3:])+"</a></figcaption></figure>")
+	add("img", nil, "<img src=\"/img/"+pfx+"b.png\" width=600 height=400 alt=\"\">")
+	w = tok(6)
+	add("heading", w, "<h2>"+j(w)+"</h2>")
+	w = tok(40)
+	add("div-br", w, "<div>"+j(w[:13])+"<br>"+j(w[13:26])+"<br>"+j(w[26:])+"</div>")
+	w = tok(41)
+	add("para-script", w[:40], "<p>"+j(w[:20])+"</p><script>var "+w[40]+" = 1;</script><p>"+j(w[20:40])+"</p>")
+	w = tok(30)
+	add("div-inline-then-table", w, "<div>"+j(w[:8])+" <em>"+j(w[8:12])+"</em> "+j(w[12:16])+"<table><thead><tr><th>"+w[16]+"</th><th>"+w[17]+"</th></tr></thead><tbody><tr><td>"+w[18]+"</td><td>"+w[19]+"</td></tr></tbody></table>"+j(w[20:])+"</div>")
+	w = tok(30)
+	add("div-nested-inline-then-img", w, "<div>"+j(w[:8])+" <b>"+j(w[8:12])+" <i>"+j(w[12:16])+"</i> "+j(w[16:20])+"</b><img src=\"/img/"+pfx+"c.png\" width=600 height=400> "+j(w[20:])+"</div>")
+	w = tok(31)
+	add("para-nested-inline-hidden", w[:30], "<p>"+j(w[:10])+" <em>"+j(w[10:20])+" <code>"+j(w[20:30])+"</code></em><span hidden> "+w[30]+"</span></p>")
+	return bs
+}
+
+func govcCheckExcerpt(view string, words []string, pos map[string]int) string {
 	last := -1
+	lastWord := ""
 	seen := map[string]bool{}
-	for _, w := range strings.Fields(res.Text) {
+	for _, w := range words {
+		w = strings.Trim(w, ".,;:()[]\"'")
 		p, ok := pos[w]
 		if !ok {
-			t.Errorf("not an excerpt: word %q of the distilled text does not occur in the visible source text", w)
-			continue
+			return fmt.Sprintf("%s is not an excerpt: word %q does not occur in the visible source text", view, w)
 		}
 		if seen[w] {
-			t.Errorf("not an excerpt: word %q is emitted twice", w)
+			return fmt.Sprintf("%s is not an excerpt: word %q is emitted twice", view, w)
 		}
 		seen[w] = true
 		if p < last {
-			t.Errorf("not an excerpt: word %q is emitted out of order", w)
+			return fmt.Sprintf("%s is not an excerpt: word %q is emitted after %q but precedes it in the source", view, w, lastWord)
 		}
-		last = p
+		last, lastWord = p, w
 	}
+	return ""
+}
+
+func TestGovcExcerptReplay(t *testing.T) {
+	kinds := govcBlocks("k")
+	evals, nontrivial := 0, 0
+	run := func(key string, blocks []govcBlock) {
+		var body strings.Builder
+		pos := map[string]int{}
+		body.WriteString("<html><head><title>Replay page for excerpts</title></head><body><div id=\"main\"><article>")
+		n := 0
+		for _, b := range blocks {
+			body.WriteString(b.html + "\n")
+			for _, w := range b.visible {
+				pos[w] = n
+				n++
+			}
+		}
+		body.WriteString("</article></div></body></html>")
+		res, err := ApplyForReader(strings.NewReader(body.String()), nil)
+		evals++
+		if err != nil {
+			t.Errorf("GOVC-FAIL %s :: excerpt case returned error %v", key, err)
+			return
+		}
+		textWords := strings.Fields(res.Text)
+		htmlWords := strings.Fields(govcNodeText(res.Node))
+		if len(textWords) > 0 {
+			nontrivial++
+		}
+		if evals <= 2 {
+			fmt.Printf("GOVC-SAMPLE blocks %s -> %d words in Result.Text, %d words in Result.Node\n", key, len(textWords), len(htmlWords))
+		}
+		if msg := govcCheckExcerpt("Result.Text", textWords, pos); msg != "" {
+			t.Errorf("GOVC-FAIL %s/text :: %s", key, msg)
+		}
+		if msg := govcCheckExcerpt("Result.Node", htmlWords, pos); msg != "" {
+			t.Errorf("GOVC-FAIL %s/html :: %s", key, msg)
+		}
+	}
+	// every ordered pair of block kinds, embedded between three plain paragraphs
+	for i := range kinds {
+		for k := range kinds {
+			a := govcBlocks("a")[i]
+			b := govcBlocks("b")[k]
+			fill := govcBlocks("f")
+			fill2 := govcBlocks("g")
+			run(fmt.Sprintf("%s+%s", a.name, b.name), []govcBlock{fill[0], a, fill[1], b, fill2[0]})
+		}
+	}
+	// every block kind alone, and all kinds in one document
+	for i := range kinds {
+		run("alone-"+kinds[i].name, []govcBlock{govcBlocks("s")[i]})
+	}
+	run("all-kinds", govcBlocks("z"))
+	fmt.Printf("GOVC-CASES evaluations=%d distinct_nontrivial=%d rule=%s\n", evals, nontrivial, "generated articles: every ordered pair of 19 block kinds between plain paragraphs, each kind alone, all kinds together; unique tokens per block; distinct by construction; non-trivial = some text was extracted")
+}
+
+func govcNodeText(n *html.Node) string {
+	var sb strings.Builder
+	var walk func(*html.Node)
+	walk = func(x *html.Node) {
+		if x.Type == html.TextNode {
+			sb.WriteString(" " + x.Data + " ")
+		}
+		for c := x.FirstChild; c != nil; c = c.NextSibling {
+			walk(c)
+		}
+	}
+	walk(n)
+	return sb.String()
 }
